@@ -1,6 +1,7 @@
 package symx
 
 import (
+	"github.com/cespare/xxhash/v2"
 	"bytes"
 	"encoding/base64"
 	"encoding/hex"
@@ -925,7 +926,7 @@ func init() {
 		"(*strings.Builder).Grow":        noop,
 
 		// strings (concrete)
-		"strings.Join":         bridge(strings.Join),
+		"strings.Join":         intrStringsJoin,
 		"strings.Split":        bridge(strings.Split),
 		"strings.SplitN":       bridge(strings.SplitN),
 		"strings.Contains":     bridge(strings.Contains),
@@ -1042,6 +1043,8 @@ func init() {
 		"math.Trunc":                bridge(math.Trunc),
 		"math.IsInf":                bridge(math.IsInf),
 		"math.Mod":                  bridge(math.Mod),
+		"github.com/cespare/xxhash/v2.Sum64String": bridge(xxhash.Sum64String),
+		"github.com/cespare/xxhash/v2.Sum64":       bridge(xxhash.Sum64),
 
 		// sync: one goroutine, locks are no-ops (mutual exclusion is an assumption)
 		"(*sync.Mutex).Lock":      noop,
@@ -1094,4 +1097,17 @@ func init() {
 		}
 		externals[k] = v
 	}
+}
+
+// intrStringsJoin concatenates possibly symbolic strings.
+func intrStringsJoin(fr *frame, args []value) value {
+	elems, _ := args[0].([]value)
+	var out value = ""
+	for i, e := range elems {
+		if i > 0 {
+			out = strConcat(out, args[1])
+		}
+		out = strConcat(out, e)
+	}
+	return out
 }
